@@ -74,15 +74,16 @@ UnsupTrees ==
 Styles == <<"full", "min", "cmt">>
 \* every expression of <= MaxWide nodes over the wide leaves, and of MaxWide+1..MaxNarrow nodes over
 \* the narrow leaves (the narrow leaves are wide leaves, so smaller narrow expressions are included)
-Exprs == Flat([n \in 1..MaxWide |-> Size(n, WideLeaves)])
-         \o Flat([n \in 1..(MaxNarrow - MaxWide) |-> Size(MaxWide + n, NarrowLeaves)])
-ExprSeq == Exprs \o UnsupTrees
+WideExprs == Flat([n \in 1..MaxWide |-> Size(n, WideLeaves)])
+NarrowExprs == Flat([n \in 1..(MaxNarrow - MaxWide) |-> Size(MaxWide + n, NarrowLeaves)])
+ExprSeq == WideExprs \o NarrowExprs \o UnsupTrees
 N == Len(ExprSeq)
 
-\* the input space handed to the harness: every supported expression (rendered in every style),
-\* every out-of-subset expression, the environments
+\* the input space handed to the harness (which renders `wide` in every style, `narrow` in one style
+\* each - taken in turn -, `unsup` once), and the environments
 ASSUME /\ "OUT_FILE" \in DOMAIN IOEnv
-       => JsonSerialize(IOEnv.OUT_FILE, [exprs |-> Exprs, unsup |-> UnsupTrees, styles |-> Styles, envs |-> Envs])
+       => JsonSerialize(IOEnv.OUT_FILE, [wide |-> WideExprs, narrow |-> NarrowExprs, unsup |-> UnsupTrees,
+                                         styles |-> Styles, envs |-> Envs])
 
 \* The reference "implementation": the tree IS the abstract expression (wrapped in Comment for the
 \* style that adds one), Python's result IS the node semantics of the expression.
